@@ -155,7 +155,9 @@ CLAIMS["C05"] = dict(
          "report_next_line_error report exactly the token's (or the line's) position plus the rule's explicit deltas, once; the scanning "
          "primitives the column arithmetic is built from (is_character_at_index*, extract_spaces, extract_until_spaces, "
          "collect_while_character) are index-safe, terminate (variant) and return exactly the maximal run from the start index (loop "
-         "invariants, no bound); adjust_for_newlines adds the number of characters after the last newline.",
+         "invariants, no bound); adjust_for_newlines adds the number of characters after the last newline; after a full reference "
+         "link / image whose label spans lines the column is (leading whitespace the paragraph keeps for that line) + (characters of "
+         "the label's last line) + 2 and the line moves by the number of newlines in the label (__calculate_full_deltas; D14 fixed).",
     note=TB + "NOT covered: which marker each of the ~30 token kinds is built from and the per-construct delta arithmetic of the inline "
               "processor (not within reach: those functions are outside the subset); block tokens in non-decreasing line order; 'the source "
               "text at that position is the opening text'. A change to one of those is NOT detected by this check.")
